@@ -469,7 +469,22 @@ class Desc:
         self.kind, self.curve, self.parts = kind, curve, tuple(parts)
 
     def contains(self, p):
-        """True / False / None (degenerate sample or on/near a boundary)"""
+        """True / False / None (degenerate sample or on/near a boundary).  A sample that is degenerate for the
+        horizontal ray (ray through a vertex, tangency) is retried with the vertical ray (coordinates swapped)."""
+        r = self._contains(p)
+        if r is None and self.kind not in ("empty", "whole"):
+            r = self.swapped()._contains((p[1], p[0]))
+        return r
+
+    def swapped(self):
+        if not hasattr(self, "_sw"):
+            if self.kind == "simple":
+                self._sw = Desc("simple", [[(c[1], c[0]) for c in seg][::-1] for seg in self.curve[::-1]])
+            else:
+                self._sw = Desc(self.kind, parts=[q.swapped() for q in self.parts])
+        return self._sw
+
+    def _contains(self, p):
         if self.kind == "empty":
             return False
         if self.kind == "whole":
@@ -484,7 +499,7 @@ class Desc:
             if ccw:
                 return w == 1 if w in (0, 1) else None
             return w == 0 if w in (0, -1) else None
-        vals = [q.contains(p) for q in self.parts]
+        vals = [q._contains(p) for q in self.parts]
         if any(v is None for v in vals):
             return None
         return all(vals) if self.kind == "all" else any(vals)
